@@ -335,8 +335,14 @@ func (x *Exec) havocLoop(st *State, fr *Frame, header *ssa.BasicBlock, li *loopI
 	}
 	for c := range cells {
 		if old, ok := st.cells[c]; ok {
-			if tv, ok := old.(TV); ok {
-				st.cells[c] = x.freshTV("loopcell", tv.Ty, st)
+			switch cv := old.(type) {
+			case TV:
+				st.cells[c] = x.freshTV("loopcell", cv.Ty, st)
+			case SliceRef:
+				// variable re-pointed by append inside the loop: arbitrary slice value of its type afterwards
+				if bt, ok := st.cells[cv.Cell].(TV); ok {
+					st.cells[c] = x.freshTV("loopcell", bt.Ty, st)
+				}
 			}
 		}
 	}
